@@ -575,7 +575,7 @@ package classifier
 //@   loop 7 invariant okCands(out, id, old(c.threshold)) && sortedConf(out)
 //@   loop 7 invariant forall k int, j int :: 0 <= k && k < len(out) && rangeindex < j && j < len(candidates) ==> out[k].Confidence >= candidates[j].Confidence
 //@   loop 7 invariant id != nil && okLines(id) && sortedLines(id) && len(id.Tokens) > 0
-//@   props C10 C03 C08 C09 C04
+//@   props C10 C03 C08 C09 C04 C02
 //@
 //@ func (*Classifier).MatchFrom
 //@   requires wfClassifier(c) && 0.0 <= c.threshold && c.threshold <= 1.0
